@@ -342,6 +342,35 @@ CPRender(t, f, fl) ==
 
 ---------------------------------------------------------------------------
 (***************************************************************************)
+(* replace(old, new, count): the find / slice / concatenate loop.          *)
+(* newKind = "P": plain str replacement -> AnsiString(new, settings of the *)
+(* first character of the match) (fresh objects); otherwise the            *)
+(* replacement value <<newT, newF>> itself (AnsiStr: a copy).              *)
+(***************************************************************************)
+FreshCopies(L, base) == [i \in DOMAIN L |-> <<base + i, L[i][2]>>]
+
+RECURSIVE ReplLoop(_, _, _, _, _, _, _, _, _)
+ReplLoop(t, f, old, newKind, newT, newF, left, idx, base) ==
+  IF left = 0 \/ idx < 0 THEN <<t, f>>
+  ELSE
+    LET n == Len(t)
+        cur == SettingsAt(n, f, idx)
+        rep == IF newKind = "P"
+               THEN << newT, CPApply(newT, EmptyTab, FreshCopies(cur, base), <<0>>, << >>, TRUE) >>
+               ELSE << newT, newF >>
+        head == CPGetItem(t, f, 0, idx)
+        tail == CPGetItem(t, f, MinOf(idx + Len(old), n), n)
+        a == CPIAdd(head[1], head[2], rep[1], rep[2])
+        b == CPIAdd(a[1], a[2], tail[1], tail[2])
+        from == idx + Len(newT) + (IF old = << >> THEN 1 ELSE 0)
+        nidx == IF from > Len(b[1]) THEN -1 ELSE Find(b[1], old, from, Len(b[1]))
+    IN ReplLoop(b[1], b[2], old, newKind, newT, newF, IF left > 0 THEN left - 1 ELSE left, nidx, base + Len(cur) + MaxInst(b[2]) + 1)
+
+CPReplace(t, f, old, newKind, newT, newF, count) ==
+  ReplLoop(t, f, old, newKind, newT, newF, count, Find(t, old, 0, Len(t)), MaxInst(f) + MaxInst(newF) + 1)
+
+---------------------------------------------------------------------------
+(***************************************************************************)
 (* DRIFT detection on recorded events: the transcribed operator applied to *)
 (* the LOGGED pre-table must give the LOGGED post-table.  v.f is the raw   *)
 (* table as the recorder read it: << <<key, add, rem>>, ... >>.            *)
@@ -385,6 +414,20 @@ DriftClauses(e, pre, post) ==
          IN Cl("drift.pad", f # EmptyTab, w.t = g[1] /\ TabOf(w.f) = g[2])
     [] e.op = "render" /\ e.a.spec = << >> /\ v.k = "S" /\ e.a.drift = 1 ->
          Cl("drift.render", f # EmptyTab, e.o.out = CPRender(v.t, f, e.a.flags))
+    [] e.op \in {"strip", "rmfix"} /\ HasResult(e) ->
+         LET w == ResultOf(e, post)
+             segs == IF e.op = "strip" THEN StripSegs(e.r, v.t, e.a.m, e.a.chars)
+                     ELSE IF e.a.m = "removeprefix"
+                          THEN (IF StartsWith(v.t, e.a.s) THEN << <<"reg", e.r, Len(e.a.s), n>> >> ELSE << <<"reg", e.r, 0, n>> >>)
+                          ELSE (IF EndsWith(v.t, e.a.s) /\ e.a.s # << >> THEN << <<"reg", e.r, 0, n - Len(e.a.s)>> >> ELSE << <<"reg", e.r, 0, n>> >>)
+             g == CPGetItem(v.t, f, segs[1][3], segs[1][4])
+             whole == segs[1][3] = 0 /\ segs[1][4] = n
+         IN Cl("drift.strip", f # EmptyTab /\ ~whole, ~whole => (w.t = g[1] /\ SameTab(TabOf(w.f), g[2])))
+    [] e.op = "replace" /\ HasResult(e) /\ e.a.old # << >> ->
+         LET w == ResultOf(e, post) u == pre[e.a.new]
+             g == CPReplace(v.t, f, e.a.old, u.k, u.t, IF HasTab(u) THEN TabOf(u.f) ELSE EmptyTab, e.a.count)
+             matched == Find(v.t, e.a.old, 0, n) >= 0 /\ e.a.count # 0
+         IN Cl("drift.replace", matched /\ (f # EmptyTab \/ u.f # << >>), matched => (w.t = g[1] /\ SameTab(TabOf(w.f), g[2])))
     [] e.op = "copy" /\ HasResult(e) ->
          Cl("drift.copy", f # EmptyTab, TabOf(ResultOf(e, post).f) = f)
     [] OTHER -> None
